@@ -19,7 +19,7 @@ func ruleSuiteProvenance(c *Ctx, r *Report) {
 		fn := st.Fn
 		key := short(fn)
 		r.Sites++
-		if strings.HasPrefix(key, "internal/state.") || strings.Contains(key, "generateInternalState") {
+		if strings.HasPrefix(key, "internal/state.") || strings.Contains(key, "generateInternalState") || c.onlyReachedFrom(fn, "generateInternalState", 0) {
 			r.Note(rule, key, c.ipos(st.Instr), "clone / import of an already negotiated suite")
 			continue
 		}
@@ -75,6 +75,35 @@ func ruleSuiteProvenance(c *Ctx, r *Report) {
 				}
 			}
 			nGuardedStage := 0
+			// or the list went through slices.DeleteFunc with a predicate that removes every
+			// element IDSupportsVersion refuses
+			for _, l := range c.OriginsThrough(a0, 1) {
+				dc, isCall := l.(*ssa.Call)
+				if !isCall || !strings.HasPrefix(calleeName(&dc.Call), "slices.DeleteFunc[") || len(dc.Call.Args) != 2 {
+					continue
+				}
+				pred := funcDenoted(dc.Call.Args[1], 0)
+				if pred == nil {
+					continue
+				}
+				removes := false
+				for _, fc := range findCalls(pred, nameIs("internal/ciphersuite.IDSupportsVersion")) {
+					w := (&Walk{Fn: pred, Assume: failAssumption(fc)}).FromEntry()
+					all := len(w.Returns) > 0
+					for _, ro := range w.Returns {
+						if len(ro.Vals) != 1 || ro.Vals[0].Kind != 1 || !ro.Vals[0].B {
+							all = false
+						}
+					}
+					if all {
+						removes = true
+					}
+				}
+				if removes {
+					nGuardedStage++
+					apps = nil // the unfiltered stages before the deletion need no guard of their own
+				}
+			}
 			for _, ap := range apps {
 				host := ap.Parent()
 				filt := findCalls(host, nameIs("internal/ciphersuite.IDSupportsVersion"))
@@ -187,7 +216,8 @@ func ruleCurvePolicy(c *Ctx, r *Report) {
 	}
 	r.Sites += len(host.Blocks)
 	a := sel[0].Call.Args
-	r.Check(isFieldLoad(a[0], tCfg, "EllipticCurves") && isFieldLoad(a[1], "pkg/protocol/extension.SupportedGroups", "Groups"), rule, short(fn)+":args", c.ipos(sel[0]), "selectEllipticCurve(cfg.EllipticCurves, client groups)", "the curve is not selected from (cfg.EllipticCurves, the client's supported_groups)")
+	r.Check(c.allResolved(a[0], func(v ssa.Value) bool { return isFieldLoad(v, tCfg, "EllipticCurves") }) &&
+		c.allResolved(a[1], func(v ssa.Value) bool { return isFieldLoad(v, "pkg/protocol/extension.SupportedGroups", "Groups") }), rule, short(fn)+":args", c.ipos(sel[0]), "selectEllipticCurve(cfg.EllipticCurves, client groups)", "the curve is not selected from (cfg.EllipticCurves, the client's supported_groups)")
 	okV := resultValue(sel[0], 1)
 	w := &Walk{Fn: host, Assume: failAssumption(okV)}
 	hdr := loopHeaderOf(sel[0].Block())
